@@ -1,6 +1,9 @@
 import PyElf.Driver.Json
 import PyElf.Spec.Container
+import PyElf.Spec.ContainerCrc
+import PyElf.Spec.Reloc
 import PyElf.Model.DwarfView
+import PyElf.Model.DwarfViewCrc
 import PyElf.Model.Env
 import PyElf.Gen.Extra_C11
 open Lean
@@ -28,16 +31,20 @@ partial def infoJson : DwarfInfo → Json
     table the harness forgot to fill shows up as a correspondence failure, not as agreement -/
 def oracleMiss : Bytes := "ORACLE-MISS".toUTF8.toList
 
-/-- the externals as tables sent with the request -/
-def extOf (zl : List (Bytes × Nat × Option Bytes)) (crcs : List (Bytes × Nat)) : Ext :=
-  { decompress := fun d k =>
+/-- the externals: zlib as a table sent with the request; CRC-32 is the Spec's (the function of the
+    GDB manual), folded over the file in 4096-byte chunks as `_file_crc32` does (`extOfStreaming`) -/
+def extOf (zl : List (Bytes × Nat × Option Bytes)) : Ext :=
+  extOfStreaming
+    (fun d k =>
       match zl.find? (fun e => e.2.1 == k && e.1 == d) with
       | some e => e.2.2
-      | none => some oracleMiss,
-    crc32 := fun d =>
-      match crcs.find? (fun e => e.1 == d) with
-      | some e => e.2
-      | none => 0xffffffffff }
+      | none => some oracleMiss)
+    (fun d init => Spec.C11.crc32 d init)
+
+def entryOf (j : Json) : Except String Spec.RelEntry := do
+  return { offset := ← jNat j "offset", sym := ← jNat j "sym", type := ← jNat j "type",
+           addend := (jInt j "addend").toOption.getD 0, ssym := (jNat j "ssym").toOption.getD 0,
+           type2 := (jNat j "type2").toOption.getD 0, type3 := (jNat j "type3").toOption.getD 0 }
 
 def genParams (X : Ext) : Params :=
   { env := elfEnv, structsFor := elfStructsFor, machineClassOf := machineClassOf,
@@ -68,14 +75,38 @@ def handle (req : Json) : Except String Json := do
         (← jNat req "is_sup") (← jHex req "filename") (← jHex req "checksum")))]
     | "altlink" =>
       return Json.mkObj [("bytes", jHexOf (Spec.C11.encAltlink (← jHex req "filename") (← jHex req "buildid")))]
+    | "crc" =>
+      -- the Spec's CRC-32 (one shot) and `_file_crc32`'s chunked fold over it
+      let d ← jHex req "hex"
+      return Json.mkObj [("crc", jN (Spec.C11.crc32 d)),
+        ("chunked", jN (fileCrc32 (fun d init => Spec.C11.crc32 d init) ((jNat req "chunk").toOption.getD 4096) d))]
+    | "reloc" =>
+      -- a relocation section against a debug section, from the standards side (C08's Spec): the table and
+      -- the value-only symbol table as bytes, the relocated logical content (`applyStd`), the domain (`WFApply`)
+      let c : Spec.RelCfg := { le := ← jBool req "le", cls := ← jNat req "cls", mips := (← jNat req "machine") = 8 }
+      let rela ← jBool req "rela"
+      let es ← (← jArr req "relocs").mapM entryOf
+      let syms ← (← jArr req "syms").mapM jNatOf
+      let sec ← jHex req "section"
+      let base := [("relbytes", jHexOf (Spec.encRelTable c rela es)),
+        ("symbytes", jHexOf (syms.flatMap (Spec.rel_encSym c.le c.cls))),
+        ("relentsize", jN (Spec.relEntSize c rela)), ("symentsize", jN (Spec.symEntSize c.cls))]
+      match Spec.archOfMachine (← jNat req "machine") with
+      | none => return Json.mkObj (base ++ [("wf", Json.bool false), ("relocated", Json.null)])
+      | some a =>
+        return Json.mkObj (base ++ [
+          ("wf", Json.bool ((c.cls = 32 || c.cls = 64) && Spec.WFApply a c rela syms sec.length es)),
+          ("relocated", match Spec.applyStd a c rela syms sec es with
+            | some b => jHexOf b
+            | none => Json.null)])
     | _ => throw s!"C11 wrap: unknown {what}"
   | "view" =>
     let data ← jHex req "hex"
     let files ← (← jArr req "files").mapM fun j => do
       match j with
-      | .arr #[.str n, .str c, crc] =>
+      | .arr #[.str n, .str c] =>
         match Bytes.ofHex n, Bytes.ofHex c with
-        | some n, some c => return (n, c, ← jNatOf crc)
+        | some n, some c => return (n, c)
         | _, _ => throw "bad file hex"
       | _ => throw "bad file entry"
     let zl ← (← jArr req "zlib").mapM fun j => do
@@ -90,12 +121,11 @@ def handle (req : Json) : Except String Json := do
           | _ => throw "bad zlib out"
         return (d, ← jNatOf kk, o)
       | _ => throw "bad zlib entry"
-    let mainCrc := (jNat req "crc").toOption.getD 0
-    let X := extOf zl ((data, mainCrc) :: files.map fun (_, c, crc) => (c, crc))
+    let X := extOf zl
     let P := genParams X
     let hasLoader ← jBool req "has_loader"
     let loader : Option Loader :=
-      if hasLoader then some fun n => (files.find? (·.1 == n)).map (·.2.1) else none
+      if hasLoader then some fun n => (files.find? (·.1 == n)).map (·.2) else none
     let relocate ← jBool req "relocate"
     let follow ← jBool req "follow"
     let fuel := (jNat req "fuel").toOption.getD 8
